@@ -42,6 +42,13 @@ CLAIMS = {
         note=A1 + 'Function::substitute / Instance::substitute (function-composition half of the property) are NOT covered: they rest on the BTreeMap-merge operator code (see C02 in DESIGN); the property is therefore only partially decided.',
         technique='contract-based deductive verification (Verus) of mechanically extracted Rust functions; termination by decreases; value-locality lemmas by induction',
         ref='DESIGN 6 C04'),
+    'C03': dict(
+        text='Deductive proof (Verus) of the real text of Linear::partial_evaluate (swap_remove loop: value preserved at every extension of the fixed part, no fixed id left, returned set = fixed ids that occurred, termination), '
+             'Function::partial_evaluate (dispatch), Constraint/RemovedConstraint::partial_evaluate and Instance::partial_evaluate (fixed values recorded on exactly the right variables, objective / every active / every removed constraint '
+             'partially evaluated in place, everything else framed). Ghost lemmas: commutation with evaluation on any split of a state, and two-step = one-step.',
+        note=A1 + 'ASSUMED, not verified: Quadratic::partial_evaluate and Polynomial::partial_evaluate (BTreeMap entry/merge code; their epsilon-dropped remainder is left uninterpreted) and the HashMap::values_mut loop over dependency functions. The property is decided for constants/linear functions and for the structural (instance) layer; partially for quadratic/polynomial.',
+        technique='contract-based deductive verification (Verus) of mechanically extracted Rust functions; ghost lemmas over the contracts',
+        ref='DESIGN 6 C03'),
 }
 NA = {
     'C06': 'evaluate_samples is built from FnMut closures capturing &mut state and iterator adapters over HashMap<OrderedFloat,..>: rejected by Verus, far beyond measured Kani limits; leaf lookups alone do not decide the property (DESIGN 6 C06)',
